@@ -5,6 +5,7 @@ import (
 	"strings"
 	"unicode/utf8"
 
+	"github.com/hattya/go.sh/interp"
 	"github.com/hattya/go.sh/parser"
 
 	"verif/core"
@@ -25,6 +26,8 @@ type c03Case struct {
 	Tail string   `json:"tail,omitempty"` // an unterminated lexical construct appended to the rendered tokens
 	Raw  string   `json:"raw,omitempty"`  // a source text that must be rejected: it ends inside a here-document, or (kind arith-parens) its "((" has no matching "))" under either reading
 	Kind string   `json:"kind"`
+	// Aliases: alias table for a Raw case of kind "located"
+	Aliases map[string]string `json:"aliases,omitempty"`
 }
 
 var c03Vocab = []c03Tok{
@@ -160,13 +163,23 @@ func c03Exec(c *core.Ctx, cs c03Case) {
 
 // c03Raw: a prefix of a valid program that ends inside a here-document body.
 func c03Raw(c *core.Ctx, cs c03Case) {
-	cmds, _, err := parser.ParseCommands(nil, "c03-name", cs.Raw)
+	var env *interp.ExecEnv
+	if cs.Aliases != nil {
+		env = interp.NewExecEnv("sh")
+		for k, v := range cs.Aliases {
+			env.Aliases[k] = v
+		}
+	}
+	cmds, _, err := parser.ParseCommands(env, "c03-name", cs.Raw)
 	c.Eval(1)
 	key := q(cs.Raw)
 	why := "the input ends inside a here-document"
 	if cs.Kind == "arith-parens" {
 		c.Count("verdict/invalid", 1)
 		why = `the "((" is not closed by a "))" at its own depth, and read as nested parentheses the text is no command either`
+	} else if cs.Kind == "located" {
+		c.Count("verdict/invalid", 1)
+		why = "hand-written ill-formed source"
 	} else {
 		c.Count("verdict/incomplete", 1)
 	}
@@ -182,6 +195,8 @@ func c03Raw(c *core.Ctx, cs c03Case) {
 		c.Violation("error-name", key, "c03-name", pe.Name, "")
 	case pe.Pos.IsZero() || newSrcIndex(cs.Raw).off(pe.Pos) < 0:
 		c.Violation("error-position", key, "a position inside the source", fmt.Sprintf("%d:%d", pe.Pos.Line(), pe.Pos.Col()), pe.Msg)
+	case cs.Kind == "located" && !c03TokenStart(cs.Raw, newSrcIndex(cs.Raw).off(pe.Pos)):
+		c.Violation("error-position", key, "the start of a blank-separated token of the source, a newline, or its end", fmt.Sprintf("%d:%d", pe.Pos.Line(), pe.Pos.Col()), pe.Msg)
 	default:
 		c.Distinct(cs.Kind, errClass(pe.Msg))
 	}
@@ -273,6 +288,37 @@ func c03ArithCase(x string, wi int) (string, bool) {
 	}
 	v, _ := recog.Recognise(rt)
 	return src, v == recog.Invalid || v == recog.Incomplete
+}
+
+// c03TokenStart: rune offset o of src is the end of the source, a newline, or a
+// non-blank character that follows a blank, a newline or the start (the
+// hand-written "located" sources separate all their tokens by blanks).
+func c03TokenStart(src string, o int) bool {
+	rs := []rune(src)
+	switch {
+	case o == len(rs):
+		return true
+	case o < 0 || o > len(rs) || rs[o] == ' ' || rs[o] == '\t':
+		return false
+	case rs[o] == '\n' || o == 0:
+		return true
+	}
+	return rs[o-1] == ' ' || rs[o-1] == '\t' || rs[o-1] == '\n'
+}
+
+// c03Located: ill-formed sources whose error has to sit on a token: after a
+// pending here-document, and in text that comes out of an alias (every position
+// is the alias word's then).
+var c03Located = []struct {
+	src string
+	al  map[string]string
+}{
+	{"{ cat <<E >\nE\n   }\n", nil}, {"{ cat <<E >\nE\n}\n", nil}, {"( cat <<E <\nbody\nE\n )\n", nil}, {"if cat <<E >\nE\n  then a ; fi\n", nil},
+	{"{ cat <<E ; ) \nE\n}\n", nil}, {"{ cat <<E <<F >\nE\nF\n   }\n", nil}, {"while a <<E >\nE\n do b ; done\n", nil}, {"{ cat >\n}\n", nil},
+	{"x ;   abc   \n", map[string]string{"abc": "(( 1 ) ( ))"}}, {"abc\n", map[string]string{"abc": "(( 1 ) ( ))"}}, {"abc\n", map[string]string{"abc": "echo $(( 1 ) ( ))"}},
+	{"al\n", map[string]string{"al": "((1)) $((2))"}}, {"x ; al\n", map[string]string{"al": "((1)) $((2))"}}, {"al\n", map[string]string{"al": "((1)) $(e)"}}, {"x ; al\n", map[string]string{"al": "((1)) $(e)"}},
+	{"al\n", map[string]string{"al": "while $((2))"}}, {"al\n", map[string]string{"al": "((1)) `e`"}}, {"  al  \n", map[string]string{"al": "((1)) ${e}"}}, {"al\n", map[string]string{"al": "((1)) \"x\""}},
+	{"a ; al b\n", map[string]string{"al": "if x ; then"}}, {"al )\n", map[string]string{"al": "echo "}}, {"al\n", map[string]string{"al": "case x in esac )"}}, {"al\n", map[string]string{"al": "f ( ) ( ( $(a) )"}},
 }
 
 func c03FromGen(toks []gen.Tok) []c03Tok {
@@ -422,6 +468,10 @@ func c03Gen(c *core.Ctx) {
 				break
 			}
 		}
+	}
+	// 1d. hand-written ill-formed sources: where the error is located
+	for _, d := range c03Located {
+		core.Do(c, c03Case{Raw: d.src, Aliases: d.al, Kind: "located"}, c03Exec)
 	}
 	// 1b. prefixes of programs that end inside a here-document body
 	nhd := c.Pick(1500, 100000)
